@@ -15,7 +15,16 @@ using namespace rkcommon;
 #define DAWDLE() usleep(500)       // native replay: widen the windows (the schedule cannot be forced there)
 #define DAWDLE_LONG() usleep(6000)
 #define GIVE_TIME() usleep(100)
+#include <cstdlib>
+// native replay attempts alternate between timing modes (VP_ATTEMPT is set by the replay driver): 0 free-running,
+// 1 / 2: the consumer's first poll waits until the producer is inside its second / first assignment (harness-owned payload code)
+static int native_mode() { const char *e = getenv("VP_ATTEMPT"); return e ? atoi(e) % 3 : 0; }
+static std::atomic<int> g_assigning;   // value currently being copy-assigned by the producer (0 = none)
+#define MARK_ASSIGN(x) g_assigning = (x)
+#define WAIT_PHASE() do { int m = native_mode(); if (m) for (int i = 0; i < 20000 && g_assigning.load() != (m == 1 ? 2 : 1); i++) usleep(10); } while (0)
 #else
+#define MARK_ASSIGN(x) do { } while (0)
+#define WAIT_PHASE() do { } while (0)
 #define DAWDLE() do { } while (0)
 #define DAWDLE_LONG() do { } while (0)
 #define GIVE_TIME() sched_yield()
@@ -25,7 +34,7 @@ struct Val {
   int a, b;
   Val() : a(0), b(0) {}
   Val(int x) : a(x), b(-x) {}
-  Val &operator=(const Val &o) { a = o.a; DAWDLE(); b = o.b; return *this; }
+  Val &operator=(const Val &o) { MARK_ASSIGN(o.a); a = o.a; DAWDLE(); b = o.b; MARK_ASSIGN(0); return *this; }
   Val &operator=(Val &&o) { DAWDLE_LONG(); a = o.a; DAWDLE(); b = o.b; return *this; }   // the consumer's install step is slow natively
   Val(const Val &o) : a(o.a), b(o.b) {}
 };
@@ -40,6 +49,7 @@ VP_ENTRY vp_main_value()
   vp_sched(PREEMPT);
   vp_spawn(producer_value, nullptr);
   int last = 0;
+  WAIT_PHASE();
   for (int i = 0; i < 6; i++) {
     bool up = tv.update();
     Val v = tv.get();
